@@ -822,6 +822,10 @@ func ruleOnce(c *Ctx) {
 						guarded++
 						break
 					}
+					if lit, ok := par.(*ast.FuncLit); ok && literalOnlyRunByOnce(p, lit) {
+						guarded++
+						break
+					}
 					if _, ok := par.(*ast.FuncDecl); ok {
 						break
 					}
@@ -857,6 +861,9 @@ func ruleOnce(c *Ctx) {
 				inOnce := false
 				for par := p.Parent(as); par != nil; par = p.Parent(par) {
 					if call, ok := par.(*ast.CallExpr); ok && callName(info, call) == "sync.(*Once).Do" {
+						inOnce = true
+					}
+					if lit, ok := par.(*ast.FuncLit); ok && literalOnlyRunByOnce(p, lit) {
 						inOnce = true
 					}
 					if _, ok := par.(*ast.FuncDecl); ok {
